@@ -127,9 +127,12 @@ func readTCP(r io.Reader, buf []byte) (int, error) {
 }
 
 func writeTCP(c net.Conn, buf []byte) error {
-	if err := binary.Write(c, binary.BigEndian, uint16(len(buf))); err != nil {
-		return err
-	}
-	_, err := c.Write(buf)
+	// Length prefix and message must go out in a single write: replies to
+	// pipelined queries are written concurrently on the same connection and
+	// would otherwise interleave.
+	var length [2]byte
+	binary.BigEndian.PutUint16(length[:], uint16(len(buf)))
+	bufs := net.Buffers{length[:], buf}
+	_, err := bufs.WriteTo(c)
 	return err
 }
